@@ -249,3 +249,17 @@ func (c C) GuardsAny(fnName, construct, label string, in ssa.Instruction, pats .
 	}
 	return c.R.Check("K1", fnName+"/"+construct+"/"+label, c.P.InstrPos(in), ok, d)
 }
+
+// ConstInt0 returns an integer constant of a non-module package (e.g. os.O_SYNC).
+func (c C) ConstInt0(pkgPath, name string) int64 {
+	pk := c.P.ByPath[pkgPath]
+	if pk == nil {
+		panic(ir.Unresolved{What: "package " + pkgPath})
+	}
+	k, ok := pk.Types.Scope().Lookup(name).(*types.Const)
+	if !ok {
+		panic(ir.Unresolved{What: pkgPath + "." + name})
+	}
+	v, _ := constant.Int64Val(constant.ToInt(k.Val()))
+	return v
+}
